@@ -1200,6 +1200,78 @@ def label_check(ctx, batch, rng, hier, cells, mode, with_h5ad, idx):
 
 
 # ------------------------------------------------------------------ driver
+# ------------------------------------------------------------------ repeated level names (finding F29)
+F29 = 'F29-validator-accepts-repeated-level-name'
+
+
+def _partition(rng, items, owners, allow_empty=True):
+    """every item to exactly one owner -> {owner: [items]}"""
+    out = {o: [] for o in owners}
+    for it in items:
+        out[rng.choice(owners)].append(it)
+    return out
+
+
+def repeated_level_dicts(rng, n):
+    """taxonomy dicts whose 'hierarchy' repeats a level NAME and which pass every check validate_taxonomy_tree makes
+    (one dict per name: the repeated level's dict is used at both positions)."""
+    out = [('aba-fixed', {'hierarchy': ['a', 'b', 'a'], 'a': {'x': ['p'], 'y': ['q']}, 'b': {'p': ['x'], 'q': ['y']}}),
+           ('aba-fixed2', {'hierarchy': ['a', 'b', 'a'], 'a': {'x': ['p', 'q'], 'y': ['r']},
+                           'b': {'p': ['x'], 'q': ['y'], 'r': []}}),
+           ('aa-fixed', {'hierarchy': ['a', 'a'], 'a': {'x': ['x'], 'y': ['y']}})]
+    for i in range(n):
+        kind = rng.choice(['aba', 'aa', 'abcb'])
+        xs = [f'x{j}' for j in range(rng.randrange(1, 5))]
+        ps = [f'p{j}' for j in range(rng.randrange(1, 6))]
+        if kind == 'aba':
+            d = {'hierarchy': ['a', 'b', 'a'], 'a': _partition(rng, ps, xs), 'b': _partition(rng, xs, ps)}
+        elif kind == 'aa':
+            img = list(xs)
+            rng.shuffle(img)
+            d = {'hierarchy': ['a', 'a'], 'a': {x: [y] for x, y in zip(xs, img)}}
+        else:
+            cs = [f'c{j}' for j in range(rng.randrange(1, 6))]
+            d = {'hierarchy': ['a', 'b', 'c', 'b'], 'a': _partition(rng, ps, xs), 'b': _partition(rng, cs, ps),
+                 'c': _partition(rng, ps, cs)}
+        out.append((f'{kind}-{i}', d))
+    return out
+
+
+def repeated_level_stream(ctx, rng):
+    """The precondition `NoDup hierarchy` is NOT enforced by the real validator.  Here the excluded inputs are generated
+    and the property's clauses (strict tree / parent-child inverse / leaf partition) evaluated on the real object; an
+    accepted dict on which a clause fails or a query raises is finding F29 (known); the model is not consulted (its
+    positional levels cannot express these dicts)."""
+    for origin, d in repeated_level_dicts(rng, ctx.n(30, 400)):
+        tt, err = construct(d)
+        ctx.count(('repeated-level', json.dumps(d, sort_keys=True)), nontrivial=True)
+        if tt is None:
+            ctx.dist('repeated_level_name', 'rejected by the validator')
+            continue
+        bad = []
+        for name, f in (('strict', spec_strict), ('inverse', spec_inverse), ('partition', spec_partition)):
+            try:
+                bad += quiet(f, tt)
+            except Exception as e:      # noqa
+                bad.append((name, f'evaluating the clause raised {exc_name(e)}: {str(e)[:80]}'))
+        for name, f in (('flatten', lambda: tt.flatten()), ('to_str/from_str', lambda: type(tt).from_str(tt.to_str()))):
+            try:
+                quiet(f)
+            except Exception as e:      # noqa
+                bad.append((name, f'{name} raised {exc_name(e)}: {str(e)[:80]}'))
+        ctx.dist('repeated_level_name', 'ACCEPTED, clauses fail (F29)' if bad else 'accepted, no clause fails')
+        if bad:
+            ctx.disagreements_checked += 1
+            ctx.violation(f'a taxonomy whose hierarchy repeats a level name ({d["hierarchy"]}) is accepted and is no tree: '
+                          f'{bad[0][1]}',
+                          {'class': F29, 'tree': d, 'origin': f'repeated-level:{origin}',
+                           'failed_clauses': sorted({c for c, _ in bad}), 'details': [x for _, x in bad[:6]]})
+
+
+def exc_name(e):
+    return type(e).__name__
+
+
 def nontrivial(data):
     h = data['hierarchy']
     return len(h) >= 2 and any(len(v) >= 2 for lv in h[:-1] for v in data[lv].values())
@@ -1217,8 +1289,11 @@ def run(ctx):
                 '>=2 levels and a node with >=2 children (distinct by content), a mutant, or a label table with >=2 '
                 'levels and >=2 cells') % (ctx.n(5, 6), ctx.n(1, 2), ctx.n(150, 5000))
     ctx.assumptions += [
-        'level names are pairwise distinct and none is "hierarchy"/"metadata"/"name_mapper"/"hierarchy_mapper" '
-        '(the model identifies a level with its position)',
+        'PRECONDITION NoDup hierarchy: level names are pairwise distinct and none is "hierarchy"/"metadata"/"name_mapper"/'
+        '"hierarchy_mapper" (the model identifies a level with its position, the real class with its name).  The real '
+        'validate_taxonomy_tree does not enforce it: dicts with a repeated level name are generated in a separate stream '
+        '(repeated_level_stream), never handed to the model, and the property clauses are evaluated on the real object: '
+        'accepted-and-broken = known finding F29',
         'node names are str (non-str names, missing/extra keys are checked against a fixed verdict table, not the model)',
         'an empty hierarchy list raises IndexError in the implementation; the model rejects it; not generated',
         'children of trees built by get_taxonomy_tree are python sets: compared as sets (sorted) with the model, '
@@ -1290,6 +1365,7 @@ def run(ctx):
         label_case(ctx, batch, rng, None, with_h5ad=(i % ctx.n(20, 10) == 0), idx=200000 + i)
     batch.flush()
     reread_part(ctx)
+    repeated_level_stream(ctx, rng)
 
 
 def replay(ctx, rec):
